@@ -214,6 +214,44 @@ static ssize_t virt_snk_cb(void *d, const void *in, size_t n) {
     v->pos += k;
     return (ssize_t)k;
 }
+// drivers that re-target their own descriptor from inside the callback (a lazy-open trampoline that installs the real reader on first use;
+// a header/body sink that switches to the body writer after the header): the descriptor belongs to the caller and is looked at for every driver call
+struct Tramp { Source src; Sink snk; Bytes stream; size_t pos = 0; Bytes header, body; int opened = 0; };
+static ssize_t tramp_read_real(void *d, void *out, size_t n) { Tramp *t = (Tramp *)d; if (t->pos >= t->stream.size()) return -ENODATA; size_t k = std::min(n, std::min<size_t>(3, t->stream.size() - t->pos)); memcpy(out, t->stream.data() + t->pos, k); t->pos += k; return (ssize_t)k; }
+static ssize_t tramp_read_open(void *d, void *out, size_t n) {
+    Tramp *t = (Tramp *)d;
+    if (t->opened++) return -EPROTO;                              // "open" runs once
+    chunk_source_init(&t->src, tramp_read_real, t);               // from now on the real reader
+    return tramp_read_real(d, out, n);
+}
+static ssize_t tramp_write_body(void *d, const void *in, size_t n) { Tramp *t = (Tramp *)d; size_t k = std::min<size_t>(n, 3); t->body.insert(t->body.end(), (const uint8_t *)in, (const uint8_t *)in + k); return (ssize_t)k; }
+static ssize_t tramp_write_header(void *d, const void *in, size_t n) {
+    Tramp *t = (Tramp *)d;
+    if (t->header.size() >= 2) return -EPROTO;                    // the header writer is done after two octets
+    size_t k = std::min<size_t>(n, 2 - t->header.size());
+    t->header.insert(t->header.end(), (const uint8_t *)in, (const uint8_t *)in + k);
+    if (t->header.size() == 2) chunk_sink_init(&t->snk, tramp_write_body, t);
+    return (ssize_t)k;
+}
+static void trampolines() {
+    for (size_t n : {(size_t)1, (size_t)2, (size_t)3, (size_t)4, (size_t)8, (size_t)11}) {
+        std::string rep = vp::fmt("trampoline %zu\n", n);
+        vp::CaseScope scope([&] { return rep; });
+        Tramp t; t.stream = stream_of(n + 4);
+        chunk_source_init(&t.src, tramp_read_open, &t);
+        vp::Block dst(n, 0xee);
+        ssize_t r = source_get_chunk(&t.src, dst.p, n);
+        vp::count(); vp::nontrivial(vp::mix(n, 909090)); vp::cls("driver-re-targets-its-own-descriptor");
+        if (r != (ssize_t)n || memcmp(dst.p, t.stream.data(), n) != 0 || t.pos != n) vp::fail("trampoline:source", vp::fmt("lazy-open source: returned %zd for N=%zu, delivered %s, stream %s", r, n, vp::hex(dst.p, n).c_str(), vp::hex(t.stream.data(), n).c_str()), rep);
+        Tramp k; Bytes data = stream_of(n);
+        chunk_sink_init(&k.snk, tramp_write_header, &k);
+        vp::Block srcb(n); memcpy(srcb.p, data.data(), n);
+        r = sink_put_chunk(&k.snk, srcb.p, n);
+        Bytes got = k.header; got.insert(got.end(), k.body.begin(), k.body.end());
+        vp::count();
+        if (r != (ssize_t)n || got != data) vp::fail("trampoline:sink", vp::fmt("header/body sink: returned %zd for N=%zu, received %s of %s", r, n, vp::hex(got).c_str(), vp::hex(data).c_str()), rep);
+    }
+}
 static void huge_transfers() {
     struct Sc { const char *name; size_t n; std::vector<size_t> per_call; };
     std::vector<Sc> scs = {
@@ -336,6 +374,7 @@ static void run() {
                     if (vp::too_many_failures()) return;
                 }
     if (a.shard == a.nshards - 1 && !vp::vg().on) huge_transfers();
+    if (a.shard == 0) trampolines();
     // random long transfers
     vp::Rng rng(a.seed * 2749 + a.shard);
     size_t nrand = (a.thorough() ? 20000 : 1500) / a.nshards;
@@ -362,6 +401,7 @@ static void run() {
 static bool replay(const std::string &text) {
     Case c;
     if (text.rfind("huge", 0) == 0) { huge_transfers(); return vp::stats().failures.empty(); }
+    if (text.rfind("trampoline", 0) == 0) { trampolines(); return vp::stats().failures.empty(); }
     if (!parse(text, c)) return false;
     vp::CaseScope scope([] { return ser(g_cur); });
     run_case(c);
